@@ -15,8 +15,22 @@ CONFIG = dict(
              'call (arena size before/after, temp-file name and length, error), the rest runs the bare item.  Every case records the digest of the '
              'complete canonical result text (all matrices, ownership, people dictionary) or the error/panic, the plan Run executed (its own '
              'prepareRunPlan call, read through the plan printer), the directory listing before every plan step and after Run. '
+             'Streams added after the seeded changes C09-s3 / C09-s4 were missed.  ONE damaged file per run: bootvictim (octopus histories of 4..6 parents, '
+             'distance <= parents-3; right before a boot action that covers >= 2 branches - OnProgress, the plan is known from the dump - the temp file of '
+             'the first / middle / last branch IN BOOT ORDER is removed or truncated to 0, size-1, half; wrapper on), octovictim (same histories; the tamper '
+             'item damages the first / middle / last file in directory order once >= 2 temp files exist), victim (GenHist histories, one victim file), '
+             'longvictim.  long: commit graphs of 30..135 commits (plans of about 100, > 100 and > 200 steps: Run calls FreeOSMemory every 100 steps) x '
+             'distance {1, 2..3, 4..8} x memory/disk with Burndown.TrackFiles off, Burndown.People off and no Burndown.HibernationDirectory (TMPDIR points '
+             'to a fresh directory) varied.  scale: parametric histories (harness/cmd/c09/scale.go: F files of L lines, every P-th line rewritten by another '
+             'author / in another tick so that the intervals cannot fuse, K arms, optional deletions that leave gaps in the allocator, octopus when K >= 4) '
+             'with 10^2 .. 4*10^4 line intervals in the quick tier and up to 10^6 in the thorough tier; arena lengths tuned to c-1, c, c+1 for c = 128, 16512 '
+             '(widths of the variable-width integers of the file format; thorough also 65536) and temp files tuned closely below and above 256 KiB (thorough also 64 KiB, 1 MiB; '
+             'largest 6.7 MB); each runs distance 1 on disk (wrapper: full correspondence while the file is below 3 MB), distance 2 on disk (bare item), distance 2 with threshold '
+             '= arena length, distance 1 in memory and threshold = arena length + 1, compared with the run without hibernation.  The trace records the parameters of a scale history, not its lines.  '
+             'The harness runs as supervisor + child: when the child dies during a run with hibernation (a panic in a goroutine of Allocator.Hibernate / Boot cannot be recovered) the trace holds that input '
+             'with outcome (panic crash), a property failure.  '
              'Non-trivial = the executed plan contains a Hibernate action; distinct = distinct (history, granularity, sampling, distance, threshold, disk, '
-             'wrapper, fault).',
+             'wrapper, fault, options).',
         exhaustive_note='',
         assumptions=[
             'C06 (allocator): Boot(Hibernate(a)) = a for a non-empty arena at or above the threshold (Section hypothesis boot_hibernate, discharged by '
@@ -41,7 +55,9 @@ CONFIG = dict(
             'propagation), BurndownAnalysis.Hibernate/Boot and the abstract file system, tied to the code by the replay of every wrapped harness case '
             '(every Hibernate/Boot call with its kind, the directory before every step and after the run, the outcome and its error class)',
             'leaves/verif_c09.go (arena size, temp-file name), internal/core/verif_c09.go + verifapi/c09 (plan printer sink), the delegating wrapper item '
-            'and the tamper item of harness/cmd/c09',
+            'and the tamper item of harness/cmd/c09 (incl. the tampering from the public OnProgress callback right before a multi-branch boot action), '
+            'the supervisor / child split of the harness (a crash of the child during a run with hibernation becomes the outcome (panic crash)) and the parametric '
+            'generator of the large histories (harness/cmd/c09/scale.go)',
         ],
         level_text='Coq theorems over every plan that satisfies the lifecycle predicate, every abstract analysis item, every threshold and disk setting, every '
                    'I/O oracle and every remove/truncate adversary: C09_erasure (all I/O succeeds, nobody tampers: the run equals the run of the plan without '
